@@ -201,6 +201,15 @@ def run_scenario(ctx, base, sc):
             out = f"(TOk (MDigest {cbool(true_md5_ok)}))" if src_exists else "(TFailed true)"
         else:
             out = "(TFailed false)"
+        # the monitor on the source: a pull that ran and failed in a way the source may be responsible for flags it for
+        # re-verification; any other outcome leaves the source record alone
+        if ran and not req.completed and not req.cancelled and src_has == "Y":
+            blame = out in ("(TFailed true)", "(TOk (MDigest false))", "(TOk MMissing)")
+            now = scopy.has_file if scopy else None
+            if blame and now != "M":
+                ctx.fail("C02:source-not-flagged", f"the pull via {t} failed ({out}) but the source copy is recorded {now!r}, not suspect: it would be retried from the same source for ever", rp)
+            if not blame and now != "Y":
+                ctx.fail("C02:source-flagged-wrongly", f"the pull via {t} failed for a reason on the destination side ({out}) but the source copy went from 'Y' to {now!r}", rp)
         sa = sc["src"] != "inactive"
         ss = src_has or "N"
         # copies that were suspect before the pass are verified by the check task of the same pass (if their node is
